@@ -399,8 +399,10 @@ func Run(file string, workers int, budget time.Duration, walks, depth int, seed 
 			st.refs = append(st.refs, graph.Str(r))
 			st.ref[graph.Str(r)] = util.CalculateHash(fmt.Sprintf("reference-%d", i))
 		}
+		// distinct model links are concretised adversarially close: the second is the first plus the separator
+		// character of the hash input, the third the first plus a space (free text is allowed as link value)
 		for i, l := range graph.List(meta["Links"]) {
-			st.link[graph.Str(l)] = util.CalculateHash(fmt.Sprintf("payload-link-%d", i))
+			st.link[graph.Str(l)] = util.CalculateHash("payload-link") + []string{"", ":", " ", "::"}[i%4]
 		}
 		return &walk.Worker{ID: id, State: st, Counters: map[string]int{}}, e.Ctx
 	}
